@@ -83,3 +83,32 @@ func init() {
 		LevelText:   "exploration: generated inputs against independent references; tables enumerated completely",
 		LevelNote:   "trusted base: the byte-wise reference comparison, the status table copied from the property text"})
 }
+
+func init() {
+	add(&Prop{ID: "C03", Level: "exploration", Shards: 16, RaceShards: 16,
+		Technique:   "runtime monitoring: offline checker over recorded histories - per (connection, resource) the delivered event frames must be a contiguous run / suffix of the reference service's numbered event stream; race detector attributed to the event queue mechanism",
+		Rule:        "event-dense histories (>=30% custom events, which no state assertion can see) over few resources and 1-4 connections with references loading, reaccess pending and heavy perturbation; per holding interval the delivered events are aligned with the stream (identity by sequence number / stamp / index+value); non-trivial when event frames were delivered and resources compared; distinct by interleaving signature",
+		Assumptions: append([]string{"events of a resource are identified by the world's per-resource sequence number (custom), state stamp (model change) or index and value (collection), unique by construction", "histories containing system resets are exempt from the alignment (derived events supersede stream events, as the property allows)"}, histAssumptions...),
+		DesignRef:   "DESIGN.md §4 C03", Required: []string{"sub.queued", "sub.requeue"},
+		LevelText: "exploration: order, duplicates, gaps, events below the snapshot stamp and missing tails are decided for every holding interval of every generated history",
+		LevelNote: "trusted base: world event numbering, happens-before by the single logical clock, RefClient holding intervals"})
+	add(&Prop{ID: "C09", Level: "exploration", Shards: 16, RaceShards: 16,
+		Technique:   "runtime monitoring: boundary-log checker (get only under a live event subscription), structural invariants of hooked cache state at quiescent points, end-state emptiness incl. /metrics gauges after the logical eviction wait; race detector attributed to count/eviction code",
+		Rule:        "lifecycle histories: subscribe/unsubscribe/disconnect from 1-6 connections with get errors, delete events, calls in flight, eviction delays 0/1/5 ms and perturbation at the eviction callback; count == subscribers at every quiescent point, no entry/subscription/gauge left at the end; non-trivial when event frames were delivered and resources compared; distinct by interleaving signature",
+		Assumptions: histAssumptions, DesignRef: "DESIGN.md §4 C09", Required: []string{"cache.evicted", "cache.evictAbort"},
+		LevelText: "exploration: the cache's bookkeeping is compared with the connections' subscriptions at every quiescent point and must be empty at the end of every history",
+		LevelNote: "trusted base: VerifSnapshot/VerifConns hooks, eviction accounting hook, SimBus subscription log"})
+	add(&Prop{ID: "C10", Level: "exploration", Shards: 16,
+		Technique:   "runtime monitoring: boundary-log checker of cid/token in every service request and substring scan of every client frame for any connection id, over multi-connection histories with {cid}-tagged resources and token events",
+		Rule:        "histories with 2-6 connections, {cid}-tagged resource ids, unique per-connection tokens set by token events; every access/call/auth payload must carry the requester's cid and an admissible token of that connection, no subject may name another connection's id or the raw tag, no frame may contain any cid; non-trivial when event frames were delivered and resources compared; distinct by interleaving signature",
+		Assumptions: append([]string{"world payloads never contain connection ids, so any occurrence in a frame is a leak"}, histAssumptions...),
+		DesignRef:   "DESIGN.md §4 C10",
+		LevelText:   "exploration: every request and frame of every generated multi-connection history is scanned",
+		LevelNote:   "trusted base: cid learned from the conn.<cid> subscription at connect time"})
+	add(&Prop{ID: "C11", Level: "fault_enumeration", Shards: 16, RaceShards: 16,
+		Technique:   "runtime monitoring with fault injection: disconnects injected at random and at every step of generated histories with requests outstanding; hooked connection/cache state and the boundary log checked at the quiescent point after each disconnect",
+		Rule:        "burst histories with 2-5 connections where connections are torn down with requests unanswered and late answers released afterwards, plus a sweep injecting the disconnect at every step index of base histories; after the disconnect: connection gone, conn.<cid> unsubscribed, cache uses released (count == subscribers), no later request carrying the cid; non-trivial when event frames were delivered and resources compared; distinct by interleaving signature",
+		Assumptions: histAssumptions, DesignRef: "DESIGN.md §4 C11", Required: []string{"sub.loadedAfterClose"},
+		LevelText: "fault enumeration over disconnect positions: every step index of the base histories is a disconnect point; the cleanup obligations are checked at the exact quiescent point following it",
+		LevelNote: "trusted base: onWSClose callback marks completion of the gateway's dispose; hooks"})
+}
